@@ -247,6 +247,66 @@ def estimator_refit_vs_fresh(case, seed):
     return findings, info
 
 
+def _blank_labels(kw, est):
+    """the same call with every label missing (a cold start)"""
+    kw = dict(kw)
+    if "y" not in kw:
+        return None
+    ml = getattr(est, "missing_label", np.nan)
+    y = np.asarray(kw["y"])
+    try:
+        if y.dtype.kind in "fc" or (isinstance(ml, float) and ml != ml):
+            kw["y"] = np.full(y.shape, np.nan, dtype=float)
+        else:
+            kw["y"] = np.full(y.shape, ml, dtype=y.dtype if y.dtype.kind in "OUS" else object)
+    except Exception:  # noqa: BLE001
+        return None
+    return kw
+
+
+def estimator_refit_without_labels(case, seed):
+    """fit(set 1) [+ predict], then fit on set 2 with EVERY label missing (a cold start), then -- where the estimator has
+    partial_fit -- partial_fit(set 2, labeled): must equal a fresh clone that is fitted on the label-less set 2 and continued the same
+    way.  A fit without labels has nothing to learn from, but it still has to forget (seed R7C13)."""
+    findings = []
+    est, fresh = case.build(), case.build()
+    data = case.data(seed)
+    kw_cold = _blank_labels(case.fit_kwargs(data, 2), est)
+    if kw_cold is None:
+        return findings, dict(skipped="no labels argument")
+    try:
+        _call(est.fit, **case.fit_kwargs(data, 1))
+        for m in case.predict_methods:
+            _call(getattr(est, m), X=data["X_test"])
+        _call(est.fit, **kw_cold)
+        _call(fresh.fit, **_blank_labels(case.fit_kwargs(case.data(seed), 2), fresh))
+        cont = False
+        if case.partial_fit_kwargs is not None:
+            # continue with the *other* data set: what leaked from the first fit then shows in the model
+            _call(est.partial_fit, **case.partial_fit_kwargs(data, 2))
+            _call(fresh.partial_fit, **case.partial_fit_kwargs(case.data(seed), 2))
+            cont = True
+        p_used = _predictions(est, case, data)
+        p_fresh = _predictions(fresh, case, data)
+    except Exception as e:  # noqa: BLE001  (estimators that cannot be fitted without labels: nothing to compare)
+        return findings, dict(raised=f"{type(e).__name__}: {str(e)[:80]}")
+    for m in p_used:
+        if p_used[m] != p_fresh[m]:
+            again = case.build()
+            try:
+                _call(again.fit, **_blank_labels(case.fit_kwargs(case.data(seed), 2), again))
+                if cont:
+                    _call(again.partial_fit, **case.partial_fit_kwargs(case.data(seed), 2))
+                same = _predictions(again, case, data)[m] == p_fresh[m]
+            except Exception:  # noqa: BLE001
+                same = False
+            if same:
+                findings.append(dict(kind="history-leak", name=m, method="fit",
+                                     what=f"refit on a training set without labels{' followed by partial_fit' if cont else ''}: `{m}` differs "
+                                          f"from a fresh clone taken through the same calls"))
+    return findings, dict(continued=cont)
+
+
 def estimator_call_sequence(case, seed, rng, length=6):
     """Random sequence of public calls; get_params and arrays before/after every call."""
     findings = []
@@ -519,6 +579,43 @@ def repro_pool_history(case, mode, seed):
     if r_fresh == r_fresh2 and r_used != r_fresh:
         findings.append(dict(kind="history-dependence", name="query", what="a strategy that has answered an earlier query (same X, earlier labeling state, other candidates / batch size) returns a different result than a freshly constructed strategy for the same call"))
     return findings, info
+
+
+def _far(data):
+    """move the unlabeled rows (and candidate rows) far away from every labeled sample: kernel classifiers then see no
+    mass there and have to break the tie between all classes with their own generator"""
+    X, y = data["X"], data["y"]
+    unl = np.where(np.isnan(y if y.ndim == 1 else y[:, 0]))[0]
+    X[unl] = X[unl] + 1.0e4
+    if "cand_arr" in data and isinstance(data["cand_arr"], np.ndarray):
+        data["cand_arr"] = data["cand_arr"] + 1.0e4
+
+
+def repro_pool_prefit(case, mode, seed, far=False):
+    """`fit_<model>=False` with models the caller has fitted: the query works on the caller's objects as they are, so a
+    repeated call with the same arguments (the same model objects) and a freshly built twin strategy given the same
+    objects return the same result (seed R7C06: a strategy that consumes the members' own generators does not)."""
+    findings = []
+    try:
+        data = case.data(seed)
+        if far:
+            _far(data)
+        kw = case.query_kwargs(data, case.models(), mode)
+        if not _prefit_variant(kw, "prefit"):
+            return findings, dict(not_applicable=True)
+        np.random.seed(GLOBAL_SEEDS[0])
+        r1 = snap.out_canon(_call(case.build().query, **kw))
+        np.random.seed(GLOBAL_SEEDS[0])
+        r2 = snap.out_canon(_call(case.build().query, **kw))
+        np.random.seed(GLOBAL_SEEDS[0])
+        r3 = snap.out_canon(_call(case.build().query, **kw))
+    except Exception as e:  # noqa: BLE001
+        return findings, dict(raised=f"{type(e).__name__}: {str(e)[:100]}")
+    if not (r1 == r2 == r3):
+        findings.append(dict(kind="prefit-models-consumed", name="query",
+                             what="fit flag False, models fitted by the caller: freshly built, equally seeded strategies given the same model "
+                                  "objects return different results from one call to the next (the query advances state of the caller's models)"))
+    return findings, {}
 
 
 def _tie(data):
